@@ -59,8 +59,8 @@ type Layout struct {
 	// Hops are the contexts in which the loader file is itself loaded from a
 	// running file with a relative request (interpreter entry points only).
 	Hops   []Loader
-	Secret  string   // token contained in a non-lisp outside file
-	Starts  []string // sandbox-relative directories location enumeration starts from
+	Secret string   // token contained in a non-lisp outside file
+	Starts []string // sandbox-relative directories location enumeration starts from
 	// Plain layouts carry `"MARKER"` as file content (no probe builtins): for
 	// runs of the real elps command line, which has no host builtins.
 	Plain bool
